@@ -12,7 +12,7 @@
 From Coq Require Import List NArith Bool Arith Lia ZifyN ZifyNat ZifyBool Permutation.
 From VLib Require Import Chunks ChunksProofs.
 From VMem Require Import StorageAccessor StorageAccessorProofs.
-From VDrv Require Import MemCopy MemCopyProofs FlushHist FlushHistProofs CopyCmd CopyCmdProofs.
+From VDrv Require Import MemCopy MemCopyProofs FlushHist FlushHistProofs CopyCmd CopyCmdProofs CopySeq CopySeqProofs.
 From VCp Require Import Dma DmaProofs DmaDataProofs.
 From VCp Require CpRelay CpRelayProofs.
 Import ListNotations.
@@ -116,6 +116,54 @@ Proof.
   - intros m buf i Hi. eapply d2h_frame; eauto; lia.
 Qed.
 Print Assumptions frame_outside_range.
+
+(** * Batches of copies and page moves
+
+    [seq_run] executes copies one after the other on the physical memory, each
+    through the page table current at that moment (a batch enqueued on the
+    queues of a context and drained once: per queue in enqueue order; the
+    harness gives the queues disjoint footprints).  [flat_run] is the reference
+    the monitor uses: one byte array over virtual addresses, H2D = write,
+    D2H = read.  For every sequence of copies, every well-formed page table with
+    disjoint frames and every memory whose virtual view is [f]: the bytes every
+    D2H returns are those the flat array holds at its place in the sequence, and
+    the virtual view afterwards is the flat array afterwards. *)
+Theorem batch_refines_flat_reference : forall lg ops s f s' outs,
+  only_copies ops -> pt_wf lg (pt_of_list (s_pt s)) -> frames_disjoint lg (pt_of_list (s_pt s)) ->
+  views lg (pt_of_list (s_pt s)) (s_mem s) f ->
+  seq_run lg s ops = Some (s', outs) ->
+  outs = snd (flat_run f ops) /\ s_pt s' = s_pt s /\
+  views lg (pt_of_list (s_pt s)) (s_mem s') (fst (flat_run f ops)).
+Proof. exact seq_refines_flat. Qed.
+Print Assumptions batch_refines_flat_reference.
+
+(** A page move replaces the page-table entry; a copy issued afterwards is
+    translated with the new entry: the round trip holds through the new frame
+    and every physical byte that is not an image of the range under the NEW
+    table — every byte of the old frame, unless the new table still maps it —
+    keeps its value. *)
+Theorem copy_after_remap_uses_current_mapping : forall lg s k pg a data s1,
+  let s' := mkS ((k, pg) :: s_pt s) (s_mem s) in
+  pt_wf lg (pt_of_list (s_pt s')) -> frames_disjoint lg (pt_of_list (s_pt s')) ->
+  exec lg s (SRemap k pg) = Some (s', []) /\
+  (exec lg s' (SH2D a data) = Some (s1, []) ->
+     exec lg s1 (SD2H a (MemCopy.len data)) = Some (s1, data) /\
+     (forall x, (forall v, a <= v < a + MemCopy.len data -> tr (look_drv lg (pt_of_list (s_pt s'))) v <> x) ->
+                s_mem s1 x = s_mem s x)).
+Proof. exact remap_then_copy. Qed.
+Print Assumptions copy_after_remap_uses_current_mapping.
+
+(** Non-vacuity: the page at 48 moves from frame 512 to frame 4096; the copy
+    issued afterwards fills the new frame, the old one keeps its bytes. *)
+Example demo_remap :
+  match seq_run 4 (mkS [(32, mkPage 32 1024 16); (48, mkPage 48 512 16)] (fun _ => 0))
+                [SH2D 44 [1;2;3;4;5;6;7;8]; SRemap 48 (mkPage 48 4096 16); SD2H 44 8;
+                 SH2D 44 [11;12;13;14;15;16;17;18]; SD2H 44 8] with
+  | Some (s, outs) => outs = [[]; []; [1;2;3;4;0;0;0;0]; []; [11;12;13;14;15;16;17;18]] /\
+                      to_list (s_mem s) 512 4 = [5;6;7;8] /\ to_list (s_mem s) 4096 4 = [15;16;17;18]
+  | None => False
+  end.
+Proof. vm_compute. repeat split; reflexivity. Qed.
 
 (** * The emulator's storage accessor *)
 
